@@ -4,6 +4,7 @@ package execfam
 
 import (
 	"fmt"
+	"runtime"
 	"sort"
 	"strings"
 )
@@ -71,7 +72,9 @@ func (t *Task) run() string {
 // ---------- Taskfile rendering ----------
 
 // vExpr renders the value of the call variable(s): V, or V+W when W is passed too.
-const vExpr = "{{.V}}{{if .W}}+{{.W}}{{end}}"
+// A value written "#n" in a program is the INTEGER n (V: 1), to be told from the string "n" (V: '1'): the probes
+// print the marker themselves.
+const vExpr = "{{if kindIs \"int\" .V}}#{{end}}{{.V}}{{if .W}}+{{.W}}{{end}}"
 
 // pexpr is the template expression a task uses for its own printed path.
 func pexpr(name string, t *Task) string {
@@ -120,6 +123,19 @@ func forYAML(items []string) string {
 	return "[" + strings.Join(q, ", ") + "]"
 }
 
+// otherPlatforms is a platforms: list that excludes the current platform although one entry has its OS and
+// another one its architecture.
+func otherPlatforms() string {
+	os2, arch2 := "windows", "arm"
+	if runtime.GOOS == "windows" {
+		os2 = "linux"
+	}
+	if runtime.GOARCH == "arm" {
+		arch2 = "amd64"
+	}
+	return fmt.Sprintf("[%s/%s, %s/%s, %s/%s, %s]", runtime.GOOS, arch2, os2, runtime.GOARCH, os2, arch2, os2)
+}
+
 // callVars renders the vars: mapping of a call site. kind is "d" or "c", idx the declared index (1-based).
 func callVars(p *Program, self string, st *Task, cs *CallSite, kind string, idx int) string {
 	var parts []string
@@ -142,6 +158,8 @@ func callVars(p *Program, self string, st *Task, cs *CallSite, kind string, idx 
 		// a pair value "x+y" stands for two variables V=x, W=y
 		f := strings.SplitN(cs.V, "+", 2)
 		parts = append(parts, "V: "+yq(f[0]), "W: "+yq(f[1]))
+	case strings.HasPrefix(cs.V, "#"):
+		parts = append(parts, "V: "+cs.V[1:], "W: ''") // an integer
 	default:
 		parts = append(parts, "V: "+yq(cs.V), "W: ''")
 	}
@@ -250,9 +268,9 @@ func (p *Program) render(file string) string {
 		}
 		switch t.guard() {
 		case "platform":
-			b.WriteString("    platforms: [windows/arm]\n")
+			b.WriteString("    platforms: " + otherPlatforms() + "\n")
 		case "platreq":
-			b.WriteString("    platforms: [windows/arm]\n    requires: {vars: [REQ]}\n")
+			b.WriteString("    platforms: " + otherPlatforms() + "\n    requires: {vars: [REQ]}\n")
 		case "requires":
 			b.WriteString("    requires: {vars: [REQ]}\n")
 		case "requires2": // the first required variable is set, the second is missing
